@@ -7,9 +7,18 @@ CFGS = [{"partitions": 1}, {"partitions": 3, "batch_size": 2, "_chunk": 2, "thre
         {"partitions": 1, "_style": {"materialized_cte": True}}]
 
 
+def kf_replays(run_, queries, rng):
+    """deterministic replay of the recorded finding KF-COALESCE-SUBQUERY-NLJ-DUP in every run"""
+    db = rel.abs_db([[[], [0]], [[1], [1]], [[2], [1]]], [[[0], [1]], [[2], [1]], [[2], [2]]], [[[1], []]])
+    for p in queries:
+        if p["tag"] == ["scalar_coalesce", "max_lt"]:
+            run_.add("/".join(p["tag"]), p["q"], db, {"partitions": 1, "hash_joins": False})
+
+
 def run(tier):
     return rel.run_tagged(
         "C09", tier, "GenSubquery", {}, "subquery",
+        extra_items=kf_replays,
         dbs_fn=lambda tables, rng: rel.pick_dbs(tables, rng, 10 if tier == "quick" else 60),
         cfgs_fn=lambda rng: CFGS,
         rule=("GenSubquery.tla queries (scalar / EXISTS / IN / ANY / ALL x correlation through filter, projection, "
